@@ -159,7 +159,7 @@ func createHtmlAttrs(attrs []html.Attribute) []HtmlAttribute {
 	for _, i := range attrs {
 		name := i.Key
 
-		if name == xmlns {
+		if name == xmlns || i.Namespace == xmlns {
 			continue
 		}
 
